@@ -115,9 +115,16 @@ def combine (u : UExt) (pDiffers : F64.Bits) : F64.Bits :=
   | .ok l1, .ok l2 => fmin F64.one (F64.mul two (fmin l1 l2))
   | _, _ => pDiffers
 
-/-- `assumeNothing.Compare` -/
-def compare {α : Type} (s1 s2 : Sample α) (u : UExt) : Comparison :=
+/-- `hasNaN` -/
+def hasNaN {α : Type} [Val α] (xs : List α) : Bool := xs.any Val.isNaN
+
+/-- `assumeNothing.Compare`. Since fix F28 a sample containing NaN is not handed to the U-test
+(whose rank computation does not terminate on NaN): P = 1 with the warning "sample contains NaN". -/
+def compare {α : Type} [Val α] (s1 s2 : Sample α) (u : UExt) : Comparison :=
   let alpha := s1.thresholds.compareAlpha
+  if hasNaN s1.values || hasNaN s2.values then
+    { p := F64.one, n1 := s1.values.length, n2 := s2.values.length, alpha := alpha, warnings := [.err "err:nan"] }
+  else
   match u.differs with
   | .err e =>
     { p := F64.one, n1 := s1.values.length, n2 := s2.values.length, alpha := alpha, warnings := [.err e] }
